@@ -16,6 +16,12 @@ fn seq_of<'a>(vs: &'a VStore, root: &str) -> Option<&'a yrs::verif::VBranch> { v
 fn seq_ids(vs: &VStore, root: &str) -> String {
     match seq_of(vs, root) { Some(b) if !b.seq.is_empty() => b.seq.iter().map(|i| format!("{:x}:{:x}", i.id.client.get(), i.id.clock)).collect::<Vec<_>>().join(","), _ => "_".to_string() }
 }
+/// every unit with its deletedness, origin and right origin (units inside a block: origin = the unit before, right origin = the block's)
+fn units_with_origins(vs: &VStore, root: &str) -> String {
+    let p = |o: &Option<yrs::ID>| match o { Some(i) => format!("{:x}:{:x}", i.client.get(), i.clock), None => "-".to_string() };
+    match seq_of(vs, root) { Some(b) => b.seq.iter().flat_map(|i| { let (c, k0) = (i.id.client.get(), i.id.clock); let (o, r, d) = (p(&i.origin), p(&i.right_origin), i.deleted);
+        (0..i.len).map(move |j| format!("{:x}:{:x}{}{}/{}", c, k0 + j, if d { "-" } else { "+" }, if j == 0 { o.clone() } else { format!("{:x}:{:x}", c, k0 + j - 1) }, r)) }).collect::<Vec<_>>().join(","), None => String::new() }
+}
 fn units(vs: &VStore, root: &str) -> String {
     match seq_of(vs, root) { Some(b) => b.seq.iter().flat_map(|i| (0..i.len).map(move |j| format!("{:x}:{:x}{}", i.id.client.get(), i.id.clock + j, if i.deleted { "-" } else { "+" }))).collect::<Vec<_>>().join(","), None => String::new() }
 }
@@ -38,6 +44,7 @@ pub fn case(seed: u64, index: u64, md: &mut Model, rep: &mut Report) {
         let pending0 = vs0.has_pending || vs0.has_pending_ds;
         let (t, a) = (reps[i].doc.get_or_insert_text(ROOT_TEXT), reps[i].doc.get_or_insert_array(ROOT_ARRAY));
         let update: Vec<u8>; let what: String;
+        let mut array_op: Option<(bool, u32, u32)> = None;   // (insert?, index, length) of a local call on the root array
         if r.chance(3, 5) || deliverable.is_empty() {
             reps[i].drain1();
             let on_text = r.chance(1, 2);
@@ -59,11 +66,11 @@ pub fn case(seed: u64, index: u64, md: &mut Model, rep: &mut Report) {
                     let at = if r.chance(2, 3) && cursor[i].1 <= len { cursor[i].1 } else { r.below(len as u64 + 1) as u32 };
                     if r.chance(1, 5) && len > 0 {
                         let k = r.below(len as u64) as u32; let l = r.range(1, (len - k).min(3) as u64) as u32;
-                        a.remove_range(&mut txn, k, l); what = format!("r{} a.remove({},{})", i, k, l);
+                        a.remove_range(&mut txn, k, l); what = format!("r{} a.remove({},{})", i, k, l); array_op = Some((false, k, l));
                     } else {
                         let cnt = r.range(1, 3) as u32;
                         let vals: Vec<Any> = (0..cnt).map(|j| Any::from((step * 10 + j as u64) as f64)).collect();
-                        a.insert_range(&mut txn, at, vals); cursor[i].1 = at + cnt; what = format!("r{} a.insert({},{} values)", i, at, cnt);
+                        a.insert_range(&mut txn, at, vals); cursor[i].1 = at + cnt; what = format!("r{} a.insert({},{} values)", i, at, cnt); array_op = Some((true, at, cnt));
                     }
                 }
             }
@@ -78,6 +85,21 @@ pub fn case(seed: u64, index: u64, md: &mut Model, rep: &mut Report) {
         script.push(what.clone());
         let vs1 = store_dump(&reps[i].doc);
         rep.count("yib_steps");
+        // ---- the cursor (Crdt/BlockIter.v): Array::insert / remove_range through BlockIter::try_forward, split_rel, insert_contents,
+        // delete - fed the array's block sequence before the call, the transcription must produce the sequence the implementation has
+        // afterwards: every unit with its deletedness, origin and right origin, and the cached length
+        if let Some((ins, at, len)) = array_op {
+            let clen0 = seq_of(&vs0, ROOT_ARRAY).map(|b| b.content_len).unwrap_or(0);
+            let cmd = if ins { format!("BIT ins {} {} {:x} {:x} {}", hex(&whole), seq_ids(&vs0, ROOT_ARRAY), clen0, at, hex(&update)) } else { format!("BIT rem {} {} {:x} {:x} {:x}", hex(&whole), seq_ids(&vs0, ROOT_ARRAY), clen0, at, len) };
+            let ans = md.ask(&cmd);
+            if !ans.starts_with("skip") {
+                rep.count(if ins { "bit_array_inserts_compared_with_the_transcription" } else { "bit_array_removals_compared_with_the_transcription" });
+                let want = format!("ok {} clen={:x}", units_with_origins(&vs1, ROOT_ARRAY), seq_of(&vs1, ROOT_ARRAY).map(|b| b.content_len).unwrap_or(0));
+                let got = ans.split(" ok=").next().unwrap_or("").to_string();
+                if got != want { rep.disagree(json!({"kind": "cursor transcription (BIT)", "model": ans.chars().take(900).collect::<String>(), "impl": want.chars().take(900).collect::<String>(), "step": what, "command": cmd.chars().take(1200).collect::<String>(), "script": script, "case": {"stream": 140, "index": index, "seed": seed}})); }
+                else if !(ans.contains(" ok=1") && ans.contains("ncd=1")) { rep.disagree(json!({"kind": "a reachable array is outside the hypotheses of bit_insert_refines_units", "answer": ans.chars().rev().take(16).collect::<String>().chars().rev().collect::<String>(), "step": what})); }
+            }
+        }
         if pending0 || vs1.has_pending || vs1.has_pending_ds { rep.count("yib_steps_with_a_stash_skipped"); continue; }
         // which root sequence received units
         let changed: Vec<&str> = [ROOT_TEXT, ROOT_ARRAY].into_iter().filter(|root| {
